@@ -134,6 +134,8 @@ def run(rep, tier):
         run_key_coercion(rep, prog, new)
     with rep.part('newtype structs'):
         run_newtype(rep, prog, new, into)
+    with rep.part('binary map keys'):
+        run_bytes_keys(rep, prog)
     # twins
     ops = TWIN_OPS
     res = replay(ops)
@@ -292,6 +294,49 @@ def run_newtype(rep, prog, new, into):
 def battery_newtype():
     ops = [{'op': 'any_newtype', 'n': 5}, {'op': 'any_newtype', 'n': -2147483648}]
     return [f'{o}: {r}' for o, r in zip(ops, replay(ops)) if not r.get('same')]
+
+
+BYTES_KEY_OPS = [{'op': 'any_key', 'ty': 'bytes', 'n': b'hi'.hex()}, {'op': 'any_key', 'ty': 'bytes', 'n': b'\x00\xff\xfe'.hex()}, {'op': 'any_key', 'ty': 'bytes', 'n': b'a'.hex()}]
+
+
+def battery_bytes_keys():
+    return [f'{o}: {r}' for o, r in zip(BYTES_KEY_OPS, replay(BYTES_KEY_OPS)) if not r.get('same')]
+
+
+def run_bytes_keys(rep, prog):
+    """binary map keys inside Any: a document key is the Base64 text; KeyDeserializer::deserialize_bytes / _byte_buf must hand it to
+    Any's own deserialize_bytes (the Base64 coercion decided natively), not to the plain string path"""
+    for meth in ('deserialize_bytes', 'deserialize_byte_buf'):
+        it = mk(prog)
+        reached = []
+
+        def T_any_bytes(it_, ctx, args, st, reached=reached):
+            reached.append(ctx.callee.method)
+            yield st, it_.ok(Agg('Coerced', ()))
+        import re as _re
+        it.models.insert(0, (_re.compile(r'<(?:conjure_object::)?any::Any as (?:[\w:]+::)?Deserializer(?:<.*>)?>::deserialize_byte(?:s|_buf)::<.*>'), T_any_bytes, None))
+        for m_ in ['visit_bool', 'visit_str', 'visit_string', 'visit_borrowed_str', 'visit_f32', 'visit_f64', 'visit_unit', 'visit_none', 'visit_some', 'visit_bytes', 'visit_byte_buf',
+                   'visit_seq', 'visit_map', 'visit_char', 'visit_newtype_struct', 'visit_enum'] + [f'visit_{s_}{w}' for s_ in 'iu' for w in (8, 16, 32, 64, 128)]:
+            it.tmodels[('MarkVisitor', 'Visitor', m_)] = lambda it_, ctx, args, st: iter([(st, it_.ok(Agg('Visited', (ctx.callee.method,))))])
+        kd = [k for k in find_fns(prog, meth, inpath='conjure_object::any::de::<impl') if 'KeyDeserializer' in prog.fns[k].args[0][1]]
+        if len(kd) != 1:
+            raise Inconclusive(f'C13 harness: KeyDeserializer::{meth} not unique: {kd}')
+        st = St()
+        ptr, s = sym_str(st, 'keytext', 4)
+        string_any = Agg(ANY, (it.mk_enum('conjure_object::any::Inner', 'String', s),))
+        key = Agg('conjure_object::any::de::KeyDeserializer', (string_any,))
+        outs = list(it.run(kd[0], [key, Agg('MarkVisitor', ())], st, {'V': ('path', 'MarkVisitor', ())}))
+        rep.states += len(outs)
+        ok = bool(outs) and all(not is_abnormal(r) and isinstance(it.payload(r, 'Ok'), Agg) and isinstance(it.payload(r, 'Ok').fields[0], Agg)
+                                and it.payload(r, 'Ok').fields[0].name == 'Coerced' for _, r in outs)
+        rep.query(f'key:bytes:{meth}:reaches-Any::deserialize_bytes', 'unsat' if ok else 'sat', 0.0, reached=list(reached))
+        if not ok:
+            rep.structural(f'C13:key:bytes:{meth}', f'KeyDeserializer::{meth} on a text key does not go through Any::deserialize_bytes (outcomes {[repr(r)[:80] for _, r in outs][:3]}): '
+                           'binary map keys lose their Base64 coercion', {'method': meth}, battery_bytes_keys)
+        finish_engine(rep, it)
+    for fail in battery_bytes_keys():
+        rep.violation('C13:native-twin:bytes-key', f'native twin: {fail}', {'native': fail})
+    rep.replayed += len(BYTES_KEY_OPS)
 
 
 def run_visitor_identity(rep, prog, ser_fn):
